@@ -204,14 +204,24 @@ def targeted_calls(ctx):
     add('save_dictionary', lambda: NT.save_dictionary({'a': [1, 2]}, os.path.join(tmpd, 'd.json')))
     add('write_to_text_file', lambda: NT.write_to_text_file(['a', 'b '], os.path.join(tmpd, 't.txt')))
     ok = 0
+    import random as _random
+    from ..lib.mutation_probe import snap, same
+    differing = []
     for name, f in calls:
-        for rep in range(2):         # a second call with the same arguments must see the same arguments
+        first = None
+        for rep in range(2):         # a second call with the same arguments must see the same arguments ...
             try:
-                f()
+                torch.manual_seed(1234); np.random.seed(1234); _random.seed(1234)     # ... and, with the same random state, return the same result
+                r = snap(f())
                 ok += 1
             except (Exception, SystemExit):
                 break
+            if rep == 0:
+                first = r
+            elif first is not None and not same(first, r):
+                differing.append(name)
     shutil.rmtree(tmpd, ignore_errors=True)
+    ctx.extra['repeat_result_differs'] = differing
     return len(calls), ok
 
 
@@ -240,6 +250,10 @@ def run(ctx):
     finally:
         probe.uninstall()
     ctx.extra['targeted_calls'] = {'registered': n_calls, 'executions_ok': ok}
+    for nm in ctx.extra.get('repeat_result_differs', []):
+        ctx.violation('%s: a second call with the same arguments (and the same random state) returns a different result' % nm,
+                      {'call': nm, 'how': 'run ./check C20; registered call %r is executed twice with torch / numpy / random seeded identically' % nm},
+                      {'fn': nm, 'what': 'repeat_result'})
     ctx.extra['repo_test_scripts_run'] = ran
     ctx.extra['callables_observed'] = len(probe.calls)
     names = {f.qual for f in fns}
